@@ -226,6 +226,31 @@ func execC08(seg []Ev) []Ev {
 				}
 			}
 		}
+		// the IEEE functions: what the host's math library gives for the argument converted to a double (any magnitude, NaN, infinities)
+		e["hostmath"] = "none"
+		if len(args) == 1 {
+			x, isNum := 0.0, true
+			switch args[0].Type() {
+			case variants.Integer:
+				x = float64(args[0].AsInteger())
+			case variants.Long:
+				x = float64(args[0].AsLong())
+			case variants.Float:
+				x = float64(args[0].AsFloat())
+			case variants.Double:
+				x = args[0].AsDouble()
+			default:
+				isNum = false
+			}
+			hm := map[string]func(float64) float64{"acos": math.Acos, "asin": math.Asin, "atan": math.Atan, "exp": math.Exp, "log": math.Log, "ln": math.Log, "log10": math.Log10,
+				"ceil": math.Ceil, "ceiling": math.Ceil, "floor": math.Floor, "round": math.Round, "cos": math.Cos, "sin": math.Sin, "tan": math.Tan, "sqr": math.Sqrt, "sqrt": math.Sqrt}
+			if f, ok := hm[strings.ToLower(name)]; ok && isNum && (mgr == "unsafe" || args[0].Type() != variants.Long || true) {
+				e["hostmath"] = valJSON(variants.VariantFromDouble(f(x)))["s"]
+			}
+			if lname := strings.ToLower(name); (lname == "trunc" || lname == "truncate") && isNum && !math.IsNaN(x) && math.Abs(x) < 9e18 {
+				e["hostmath"] = strconv.FormatInt(int64(math.Trunc(x)), 10)
+			}
+		}
 		// a result is the caller's to change: the next call must not be affected (deterministic functions only)
 		e["again"] = "same"
 		if oc == "value" && e["hit"] == 0 && r.Type() != variants.Array {
@@ -444,7 +469,9 @@ func genC08(g *Gen) {
 				}
 				// one-argument functions over the numeric pool and the generic pool
 				if canon != "array" {
-					for _, a := range append(append([]string{}, nums...), c08generic...) {
+					halves := []string{"d:0.5", "d:1.5", "d:2.5", "d:-0.5", "d:-1.5", "d:-2.5", "d:0.49999999999999994", "d:-0.49999999999999994", "d:4503599627370495.5", "d:4503599627370496.5", "d:-0",
+						"d:-Inf", "d:1e308", "d:5e-324", "d:1e-7", "l:9223372036854775807", "l:9007199254740993", "i:-9223372036854775808", "f:0.5", "f:2.5", "f:-1.5", "f:16777217", "d:3.141592653589793", "d:1.5707963267948966", "d:1e22", "d:-1e22"}
+					for _, a := range append(append(append([]string{}, nums...), c08generic...), halves...) {
 						emit("one argument from the boundary pool", mgr, sp, []string{a})
 					}
 				}
